@@ -77,7 +77,11 @@ pub(crate) struct DropAll(Weak<GuardInner>);
 impl Drop for DropAll {
     fn drop(&mut self) {
         if let Some(guard) = self.0.upgrade() {
-            if let Some(f) = guard.lock().unwrap().take() {
+            // Take the release function out first and let go of the lock before calling it: calling it may drop
+            // the value (closing and appending the entry), and that code may itself drop another `DropAll` of
+            // the same value (an entry that holds one of its own force-flush guards), which locks again.
+            let release = guard.lock().unwrap().take();
+            if let Some(f) = release {
                 (f)()
             }
         }
